@@ -16,6 +16,9 @@ Qed.
 Lemma gen_max_body_pos : 1 <= max_body.
 Proof. unfold max_body. vm_compute. lia. Qed.
 
+Lemma gen_max_body_le_76 : max_body <= 76.
+Proof. unfold max_body. vm_compute. lia. Qed.
+
 Section Wrap.
 Variable max : nat.
 Hypothesis Hmax : 1 <= max.
